@@ -232,8 +232,11 @@ def judge(lab, out, R):
                     cause = 'client-died-without-setting-result/' + _exc_class(h.exception)
                 else:
                     cause = 'client-exited-without-setting-result'
+            elif why == 'queued-but-no-client':
+                cause = 'last-client-left-without-respawn'
             else:
-                cause = 'pool=%d' % len(lab.relay.pool)
+                q = lab.relay.queue
+                cause = 'semaphore-out-of-step' if q.sema.counter != len(q) else 'clients-not-woken'
             mech = 'stranded/%s/%s/%s' % (mode, why, cause)
             if mech in seen:
                 continue
